@@ -79,6 +79,42 @@ def run(ck: Check) -> None:
                 break
             if p > write_at // 3:
                 ck.nontrivial_add((di, p))
+        # a fault inside every call of the serializer (once per artifact, once for the final document): file untouched, and the output file
+        # must not be open (truncated) while the result is still being serialized
+        real_cs = impl.common.canonserialize
+        ncalls = [0]
+        def counting(obj):
+            ncalls[0] += 1
+            return real_cs(obj)
+        impl.common.canonserialize = impl.signing.canonserialize = counting
+        try:
+            open(fn, "wb").write(orig)
+            with impl.quiet_stdout():
+                faults.run_traced(call, fn, pkg)
+        finally:
+            impl.common.canonserialize = impl.signing.canonserialize = real_cs
+        total_ser = ncalls[0]
+        for j in range(1, total_ser + 1):
+            open(fn, "wb").write(orig)
+            cnt = [0]
+            def failing_cs(obj, _j=j):
+                cnt[0] += 1
+                if cnt[0] == _j:
+                    raise MemoryError("out of memory while serializing")
+                return real_cs(obj)
+            impl.common.canonserialize = impl.signing.canonserialize = failing_cs
+            try:
+                with impl.quiet_stdout():
+                    exc, _, logs = faults.run_traced(call, fn, pkg)
+            finally:
+                impl.common.canonserialize = impl.signing.canonserialize = real_cs
+            ck.evaluations += 1
+            ck.oracle_checks += 1
+            if open(fn, "rb").read() != orig or any("w" in m for _, m, _ in logs):
+                ck.violation("a failure while serializing (artifact metadata or the final document) left a truncated / modified file: the output was opened before the result was serialized",
+                             {"serializer_call": j, "of": total_ser, "opens": logs, "error": repr(exc)[:120]}, "c18-serialize-fault-modified:" + ("final" if j == total_ser else "artifact"))
+                break
+            ck.nontrivial_add((di, "ser", j))
         # faults raised from inside the key's sign() at the j-th artifact
         nart = len(doc["packages"]) + len(doc.get("packages.conda", {}))
         for j in range(1, nart + 1):
